@@ -518,6 +518,10 @@ class _ChainedRunnerIterator(Iterable[_ValueT]):
           'chainable: %s', f'"{name}" iterator returned a {type(returned)}'
       )
       raise StopIteration(returned) if returned else e
+    except Exception:
+      # A stage failed: stops the (possibly multi-threaded) upstream stages too.
+      self.maybe_stop()
+      raise
 
   def __iter__(self) -> Iterator[_ValueT]:
     return self
